@@ -26,6 +26,12 @@ def observe(cmd, args):
     if cmd == "r.parse":
         r = parse(args[0])
         return "E" if r is None else show(r)
+    if cmd == "r.rt":
+        r = parse(args[0])
+        if r is None: return "E"
+        t = str(r)
+        r2 = parse(t)
+        return "|".join(["RT", t, "E" if r2 is None else show(r2), "-" if r2 is None else ("T" if r2 == r else "F")])
     if cmd == "r.eq":
         a, b = parse(args[0]), parse(args[1])
         if a is None or b is None: return "E"
